@@ -19,7 +19,8 @@ func init() {
 			"(4) the logical.Storage methods of the barrier and of its transaction reach the backend only through putInternal/lockSwitchedGet/deleteWithBackend/listPageWithBackend; " +
 			"(5) who-may-call: every invoke of physical.Backend.Put/Delete outside the physical layers and the barrier package is in a frozen table whose rows pin the storage key to a reviewed constant; constructors of directStorageAccess are tabled; a sys/raw handler uses the accessor storageByPath returned on the very key value it classified; writers through the StorageAccess indirection (the unencrypted accessor for root seals) are tabled and the seals' keys pinned to the two seal-config constants; " +
 			"(6) what the bootstrap writers store: the stored-keys and recovery-key records carry proto.Marshal of the seal's Encrypt result on every path and are written behind Encrypt's success edge; the raw rekey backups are written behind EncryptShares' success and every share hex-encoded into them is read out of results.SecretShares as overwritten by EncryptShares' result (no later overwrite); " +
-			"(2b) every writer of the format byte stores AESGCMVersion2 (the key-bound format); (3b) the len>=4 cut holds for every [:4] term slice of the barrier package, including the in-memory Decrypt; (3c) a barrier reader returns (no entry, no error) only across the backend-entry == nil edge — no test of the stored value's length or content leads to a not-found answer.",
+			"(2b) every writer of the format byte stores AESGCMVersion2 (the key-bound format); (3b) the len>=4 cut holds for every [:4] term slice of the barrier package, including the in-memory Decrypt; (3c) a barrier reader returns (no entry, no error) only across the backend-entry == nil edge — no test of the stored value's length or content leads to a not-found answer; " +
+			"(7) no key material reaches the store through a wiped root key: Keyring.SetRootKey gives its result a freshly allocated copy of the root key (Clone/AddKey share it by reference), and every Keyring.Zeroize site outside Seal lies in a function in which every keyring made live comes out of SetRootKey (directly or via updateRootKeyCommon) — a superseded keyring is zeroised only if it shares no root-key bytes with the live one.",
 		NotDecided: "that AES-GCM authenticates (Go crypto/cipher is trusted); the plaintext-canary scan of a live store; enumeration of tampered records; legacy-format (version 1) relocation, which the statement itself excludes.",
 		Run:        runC01,
 	})
